@@ -77,3 +77,34 @@ Theorem C02_rename_effect : forall P s h1 n1 h2 n2 s' d1i d1 d2i d2 fi fo,
     same_object fo fo' /\ o_parent fo' = d2i /\ (forall ti, o_ents d2 !! n2 = Some ti -> objs s' !! ti = None).
 Proof. exact rename_effect. Qed.
 Print Assumptions C02_rename_effect.
+
+(* The directory layer (DM = Model/DirModel.v, transliterating dir/dir.go + dir/dcache.go) implements a finite map
+   from names to inode numbers: an added name is found with its number and no other name changes; a removed name
+   is gone and no other name changes; failures change no slot. *)
+From V Require Model.DirModel Proofs.DirProofs.
+Theorem C02_dir_add_name : forall st i n room st', DirProofs.coh st -> DirProofs.absent (DirModel.d_slots st) n ->
+  DirModel.add_name st i n room = (st', true) ->
+  DirProofs.coh st' /\ (lenN n <= DirModel.DM_MAXNAMELEN)%N /\
+  (exists k, DirProofs.at_ (DirModel.d_slots st') k (n, i)) /\
+  (forall k e, fst e <> n -> (DirProofs.at_ (DirModel.d_slots st') k e <-> DirProofs.at_ (DirModel.d_slots st) k e)) /\
+  DirProofs.step_ok (DirModel.d_slots st) (DirModel.d_slots st').
+Proof. exact DirProofs.add_name_ok. Qed.
+Print Assumptions C02_dir_add_name.
+
+Theorem C02_dir_add_name_total : forall st i n, (lenN n <= DirModel.DM_MAXNAMELEN)%N -> snd (DirModel.add_name st i n true) = true.
+Proof. exact DirProofs.add_name_succeeds. Qed.
+
+Theorem C02_dir_rem_name : forall st n st', DirProofs.coh st -> DirModel.rem_name st n = (st', true) ->
+  DirProofs.coh st' /\ DirProofs.absent (DirModel.d_slots st') n /\ ~ DirProofs.absent (DirModel.d_slots st) n /\
+  (forall k e, fst e <> n -> (DirProofs.at_ (DirModel.d_slots st') k e <-> DirProofs.at_ (DirModel.d_slots st) k e)) /\
+  DirProofs.step_ok (DirModel.d_slots st) (DirModel.d_slots st').
+Proof. exact DirProofs.rem_name_ok. Qed.
+Print Assumptions C02_dir_rem_name.
+
+Theorem C02_dir_failures_change_nothing : forall st,
+  DirProofs.coh st ->
+  (forall i n room st', DirModel.add_name st i n room = (st', false) -> DirProofs.coh st' /\ DirModel.d_slots st' = DirModel.d_slots st) /\
+  (forall n st', DirModel.rem_name st n = (st', false) ->
+     DirProofs.coh st' /\ DirModel.d_slots st' = DirModel.d_slots st /\ ((lenN n <= DirModel.DM_MAXNAMELEN)%N -> DirProofs.absent (DirModel.d_slots st) n)).
+Proof. exact (fun st H => conj (fun i n room st' => DirProofs.add_name_fail st i n room st' H) (fun n st' => DirProofs.rem_name_fail st n st' H)). Qed.
+Print Assumptions C02_dir_failures_change_nothing.
